@@ -67,6 +67,14 @@ JudgeC02(e) ==
   CASE e.ev = "size" ->
         FirstBad(<< <<e.res = "nil", "Size() did not return normally: " \o e.res>>,
                     <<e.res # "nil" \/ e.n = sz, "Size() is not the length of the encoding">> >>)
+    [] e.ev = "encx" ->
+        \* a value with times off the 100ns grid: whatever the rounding, the three encoders agree and Size() is their length
+        \* (records with maps are left out: their encoders may legitimately order the entries differently)
+        IF HasMap(S, t) THEN NAv ELSE
+        FirstBad(<< <<e.res = "nil", "an encoder fails on a time that is not a multiple of 100ns: " \o e.res>>,
+                    <<e.res # "nil" \/ (e.outs[1] = e.outs[2] /\ e.outs[2] = e.outs[3]),
+                      "the encoders disagree on a time that is not a multiple of 100ns">>,
+                    <<e.res # "nil" \/ Len(e.outs[1]) = e.n, "Size() is not the encoded length for a time that is not a multiple of 100ns">> >>)
     [] e.ev = "enc" ->
         LET out == OutOf(e)
             ideal == FirstBad(<<
